@@ -102,14 +102,15 @@ function printFull(e) {
  */
 function printRef(e, sites) {
   const R = (x) => printRef(x, sites)
-  // positions whose value the generator hoists into a temporary (`$A`): conditions of ?: and dynamic indices
+  // positions whose value the generator hoists into a temporary (`$A`): conditions of ?:, dynamic indices, left operands of ??
   const hoisted = (x) => { if (!sites) return R(x); const code = R(x); sites.push(code); return 'HOIST(' + (sites.length - 1) + ')' }
   switch (e.k) {
     case 'id': return '$.' + e.name
     case 'lit': return '(' + e.text + ')'
     case 'grp': return R(e.e)
     case 'un': return '(' + e.op + ' ' + R(e.e) + ')'
-    case 'bin': return '(' + R(e.l) + ' ' + e.op + ' ' + R(e.r) + ')'
+    // (the generator evaluates the left operand of ?? into a temporary as well)
+    case 'bin': return '(' + (e.op === '??' ? hoisted(e.l) : R(e.l)) + ' ' + e.op + ' ' + R(e.r) + ')'
     case 'cond': return '(' + hoisted(e.c) + ' ? ' + R(e.t) + ' : ' + R(e.f) + ')'
     case 'mem': return 'GET(' + R(e.o) + ', ' + JSON.stringify(e.name) + ')'
     case 'idx': { const o = R(e.o); return 'GET(' + o + ', ' + hoisted(e.i) + ')' }
@@ -122,7 +123,7 @@ function printRef(e, sites) {
 // SPREAD only records that a non-array value was spread (the known lenient-spread deviation is identified by that);
 // HOIST records which hoisted positions JavaScript evaluated (the known eager-evaluation deviation is identified by a
 // position JavaScript skipped whose evaluation on its own throws)
-const REF_PRELUDE = 'const SPREAD = (x) => { if (!Array.isArray(x)) FLAGS.nonArraySpread = true; return x }; const GET = (o, k) => (o === null || o === undefined ? undefined : o[k]); const CALL = (f, args) => (typeof f === "function" ? (0, f)(...args) : undefined);'
+const REF_PRELUDE = 'const SPREAD = (x) => { if (!Array.isArray(x)) FLAGS.nonArraySpread = true; else if (Object.keys(x).length !== x.length) FLAGS.holeySpread = true; return x }; const GET = (o, k) => (o === null || o === undefined ? undefined : o[k]); const CALL = (f, args) => (typeof f === "function" ? (0, f)(...args) : undefined);'
 
 function compileRef(e) {
   const sites = []
